@@ -331,6 +331,8 @@ class OptionsDomain(ExactCollectionsMixin, Domain):
     def name_load(self, name, state, node=None):
         if state.has(name):
             return state.get(name)
+        if self.prog is not None and name in self.prog.classes and name.endswith("Client"):
+            return Opaque("class:" + name)
         return TOP
 
     def attr_load(self, objval, node, state):
@@ -362,8 +364,8 @@ class OptionsDomain(ExactCollectionsMixin, Domain):
         if name == "getattr" and len(args) >= 2 and isinstance(node.args[0], ast.Name) and node.args[0].id == "self" and isinstance(args[1], Const) and isinstance(args[1].v, str):
             k = "self." + args[1].v
             return [("ok", state.get(k) if state.has(k) else Opaque(k), state)]
-        if fval == Opaque("self.client_class") or name in ("self.client_class", "Client"):
-            kw = {}
+        if fval == Opaque("self.client_class") or name in ("self.client_class", "Client") or (isinstance(fval, Opaque) and fval.tag.startswith("class:")):
+            kw = {"<class>": Const(fval.tag) if isinstance(fval, Opaque) else Const(name)}
             for k, v in kwargs.items():
                 if k.startswith("**"):
                     c = content(v, state) if isinstance(v, Ref) else (v if isinstance(v, DictV) else None)
@@ -393,13 +395,13 @@ class OptionsDomain(ExactCollectionsMixin, Domain):
         return [("ok", Derived(frozenset(ns)) if ns else TOP, state)]
 
 
-def created_client_options(prog, cname="PooledClient"):
+def created_client_options(prog, cname="PooledClient", creator="_create_client"):
     """-> list of (positional values, {option name: value}) - one per path through __init__ + _create_client - of the
     call that creates an inner client.  Values: P(name) = the constructor parameter itself, Derived({names}) = computed
     from those parameters, Const, or something else."""
     cls = prog.cls(cname)
     init = prog.method(cls, "__init__")
-    cc = prog.method(cls, "_create_client")
+    cc = prog.method(cls, creator)
     dom = OptionsDomain(prog, init, cls)
     env = {p.name: P(p.name) for p in init.params if p.name != "self"}
     outs = Interp(dom, init.node, prog).run(Env(env))
@@ -407,8 +409,70 @@ def created_client_options(prog, cname="PooledClient"):
     for s, v, t in outs.of("ret"):
         inst = {k: val for k, val in s.d.items() if (isinstance(k, str) and k.startswith("self.")) or isinstance(k, tuple)}
         d2 = OptionsDomain(prog, cc, cls)
+        for p_ in cc.params:
+            if p_.name != "self":
+                inst[p_.name] = Opaque("arg:" + p_.name) if not p_.has_default else NONE
         o2 = Interp(d2, cc.node, prog).run(Env(inst))
         for s2, v2, t2 in o2.of("ret"):
             for pos, kw in s2.get("#ctor", ()):
-                out.append((pos, dict(kw)))
+                kw = dict(kw)
+                kw.pop("<class>", None)
+                out.append((pos, kw))
     return init, cc, out
+
+
+class _CallbackDomain(Domain):
+    """What the pool's after_remove callback does with the client it is given."""
+
+    async_enabled = False
+    global_keys = ("#cb",)
+
+    def attr_load(self, objval, node, state):
+        if objval == Opaque("removed-client"):
+            return BoundCall(objval, Const(node.attr))
+        return TOP
+
+    def call(self, node, fval, args, kwargs, state):
+        if isinstance(fval, BoundCall) and fval.obj == Opaque("removed-client"):
+            return [("ok", NONE, state.set("#cb", state.get("#cb", ()) + (fval.attr.v,)))]
+        st = state
+        if any(a == Opaque("removed-client") for a in list(args) + list(kwargs.values())):
+            st = st.set("#cb", st.get("#cb", ()) + ("<passed to %s>" % call_name(node),))
+        return [("ok", TOP, st)]
+
+
+def after_remove_calls(prog, cname="PooledClient"):
+    """The methods the pool's after_remove callback calls on the removed client, per path; None if the callback is
+    not a lambda / method this analysis can follow.  (The callback runs inside ObjectPool.get / destroy / clear, i.e.
+    also on the way *into* a pooled call, outside that call's own error handling.)"""
+    cls = prog.cls(cname)
+    init = prog.method(cls, "__init__")
+
+    class Finder(OptionsDomain):
+        def call(self, node, fval, args, kwargs, state):
+            if call_name(node).endswith("ObjectPool"):
+                return [("ok", Opaque("pool"), state.set("#pool", state.get("#pool", ()) + (kwargs.get("after_remove", NONE),)))]
+            return super().call(node, fval, args, kwargs, state)
+
+        def is_global_key(self, k):
+            return k == "#pool" or super().is_global_key(k)
+
+    dom = Finder(prog, init, cls)
+    outs = Interp(dom, init.node, prog).run(Env({p.name: P(p.name) for p in init.params if p.name != "self"}))
+    found = []
+    for s, v, t in outs.of("ret"):
+        for cb in s.get("#pool", ()):
+            if cb == NONE:
+                found.append(())
+                continue
+            from .paths import LambdaV
+
+            if not isinstance(cb, LambdaV):
+                return None
+            d2 = _CallbackDomain(prog, init)
+            res = d2.apply_lambda(cb.node, cb, [Opaque("removed-client")], {}, Env())
+            if res is None:
+                return None
+            for r in res:
+                found.append(tuple(r[2].get("#cb", ())))
+    return found
